@@ -36,6 +36,11 @@ type pairModel struct {
 	makeMeta     *ssa.Function
 	enforcerRm   *ssa.Function
 	enforcerDlv  *ssa.Function
+	// the rendezvous as one shared helper that is handed the channel (enforcerSend(s.remove, m),
+	// s.remove.submit(m)): a call of it is a removal notice or a delivery notice according to
+	// the channel field passed at chanIdx
+	enforcerVia     *ssa.Function
+	enforcerChanIdx int
 	enforcerLoop *ssa.Function
 	phiBusy      map[*ssa.Phi]bool
 	// assumed: parameters of a helper under analysis that stand for removed messages (or a
@@ -112,6 +117,19 @@ func (c *Ctx) pairing() *pairModel {
 	}
 	// the rendezvous may be a shared helper taking the channel as a parameter
 	// (enforcerSend(s.remove, m)): the role then belongs to the function that passes the field
+	via := map[*ssa.Function]int{}
+	viaCallers := map[*ssa.Function][]*ssa.Function{}
+	defer func() {
+		// when the functions that pass the field are not dedicated wrappers (one function passes
+		// both channels, or store operations pass them directly), the notices are the calls of
+		// the shared helper themselves
+		for g, idx := range via {
+			dedicated := m.enforcerRm != nil && m.enforcerDlv != nil && m.enforcerRm != m.enforcerDlv && len(viaCallers[g]) == 2
+			if !dedicated {
+				m.enforcerVia, m.enforcerChanIdx = g, idx
+			}
+		}
+	}()
 	for _, fn := range pkgFuncs(p, "pkg/storage/mem") {
 		fn := fn
 		eng.EachInstr(fn, func(in ssa.Instruction) {
@@ -136,6 +154,10 @@ func (c *Ctx) pairing() *pairModel {
 				}
 				if !sends {
 					continue
+				}
+				if eng.SameField(f, m.fRemove) || eng.SameField(f, m.fIncoming) {
+					via[g] = i
+					viaCallers[g] = append(viaCallers[g], fn)
 				}
 				if eng.SameField(f, m.fRemove) && m.enforcerRm == nil {
 					m.enforcerRm = fn
@@ -616,7 +638,17 @@ func (m *pairModel) deletedEmitPred() eng.Pred {
 func (m *pairModel) enforcerRemovePred() eng.Pred {
 	return func(in ssa.Instruction) bool {
 		call, ok := in.(*ssa.Call)
-		if !ok || m.calleeOf(call.Common()) != m.enforcerRm {
+		if !ok {
+			return false
+		}
+		if m.enforcerVia != nil {
+			if m.calleeOf(call.Common()) != m.enforcerVia || m.enforcerChanIdx >= len(call.Call.Args) || !eng.SameField(eng.LoadedField(eng.StripConv(call.Call.Args[m.enforcerChanIdx])), m.fRemove) {
+				return false
+			}
+			args := call.Call.Args
+			return m.removedOrigin(args[len(args)-1], 0)
+		}
+		if m.calleeOf(call.Common()) != m.enforcerRm {
 			return false
 		}
 		args := call.Call.Args
@@ -802,10 +834,7 @@ func (m *pairModel) checkIn(T *ssa.Function, ri ssa.Instruction, effect string, 
 	case "deleted-event":
 		pred = m.deletedEmitPred()
 	case "enforcer-deliver":
-		pred = func(in ssa.Instruction) bool {
-			call, ok := in.(*ssa.Call)
-			return ok && eng.StaticCallee(call.Common()) == m.enforcerDlv
-		}
+		pred = m.isEnforcerDeliver
 	case "enforcer-account":
 		pred = m.enforcerRemovePred()
 		allowOff = true
@@ -1188,4 +1217,18 @@ func (m *pairModel) holdsEnforcer(f *types.Var) bool {
 		}
 	}
 	return false
+}
+
+
+// isEnforcerDeliver: in reports a delivered message to the size enforcer.
+func (m *pairModel) isEnforcerDeliver(in ssa.Instruction) bool {
+	call, ok := in.(*ssa.Call)
+	if !ok {
+		return false
+	}
+	if m.enforcerVia != nil {
+		return eng.StaticCallee(call.Common()) == m.enforcerVia && m.enforcerChanIdx < len(call.Call.Args) &&
+			eng.SameField(eng.LoadedField(eng.StripConv(call.Call.Args[m.enforcerChanIdx])), m.fIncoming)
+	}
+	return eng.StaticCallee(call.Common()) == m.enforcerDlv
 }
